@@ -50,15 +50,9 @@ template <typename ForwardIt1, typename ForwardIt2>
 [[nodiscard]] constexpr auto is_permutation(ForwardIt1 first1, ForwardIt1 last1, ForwardIt2 first2, ForwardIt2 last2)
     -> bool
 {
-    using tag = random_access_iterator_tag;
-
-    constexpr auto lhsIsRandomIt = is_base_of_v<tag, typename iterator_traits<ForwardIt1>::iterator_category>;
-    constexpr auto rhsIsRandomIt = is_base_of_v<tag, typename iterator_traits<ForwardIt2>::iterator_category>;
-
-    if constexpr (lhsIsRandomIt and rhsIsRandomIt) {
-        if (etl::distance(first1, last1) != etl::distance(first2, last2)) {
-            return false;
-        }
+    // forward iterators are multi-pass: the lengths can be compared for every iterator category
+    if (etl::distance(first1, last1) != etl::distance(first2, last2)) {
+        return false;
     }
     return etl::is_permutation(first1, last1, first2);
 }
